@@ -47,12 +47,15 @@ enum Ack { Ok, Fail, None }
 enum End { Stay, Eof0, EofAck(u64), ErrAck(u64), EofPackets(usize) }
 
 #[derive(Clone, Debug)]
-struct ConnScript { conn: ConnMode, writes: Vec<W>, ack: Ack, ack_delay_ms: u64, frag: usize, end: End }
+struct ConnScript { conn: ConnMode, writes: Vec<W>, ack: Ack, ack_delay_ms: u64, frag: usize, end: End, no_pingresp: bool, no_puback: bool,
+                    }   // quiet=ping : PINGREQ is not answered; quiet=pub : PUBLISH is not acknowledged; quiet=both
 
 #[derive(Clone, Debug)]
-enum Act { Start, Stop, StopD, Close, DropHandle, Publish(u8, usize, bool), Sleep(u64), Wait(String, usize) }
+enum Act { Start, Stop, StopD, Close, DropHandle, Publish(u8, usize, bool), PublishT(u8, usize, u64), Sleep(u64), Wait(String, usize) }
+// pubt1:<len>:<ms> = publish QoS 1 with an ack timeout of <ms>
 
-struct Scenario { threaded: bool, connect_timeout_ms: u64, acts: Vec<Act>, conns: Vec<ConnScript> }
+struct Scenario { threaded: bool, connect_timeout_ms: u64, acts: Vec<Act>, conns: Vec<ConnScript>,
+                  keep_alive: Option<u16>, ping_timeout_ms: Option<u64> }   // ka=<seconds> pto=<ms> among the user tokens
 
 fn parse_scenario(toks: &[&str]) -> Result<Scenario, String> {
     if toks.len() < 2 { return Err("RUN: short".to_string()); }
@@ -61,13 +64,18 @@ fn parse_scenario(toks: &[&str]) -> Result<Scenario, String> {
     let mut sections: Vec<Vec<&str>> = vec![vec![]];
     for t in &toks[2..] { if *t == ";" { sections.push(vec![]); } else { sections.last_mut().unwrap().push(*t); } }
     let mut acts = Vec::new();
+    let mut keep_alive: Option<u16> = None;
+    let mut ping_timeout_ms: Option<u64> = None;
     for t in &sections[0] {
+        if let Some(v) = t.strip_prefix("ka=") { keep_alive = Some(v.parse::<u16>().map_err(|_| "ka")?); continue; }
+        if let Some(v) = t.strip_prefix("pto=") { ping_timeout_ms = Some(v.parse::<u64>().map_err(|_| "pto")?); continue; }
         let parts: Vec<&str> = t.split(':').collect();
         let num = |i: usize| -> Result<u64, String> { parts.get(i).ok_or("missing number")?.parse::<u64>().map_err(|_| format!("bad number in {}", t)) };
         acts.push(match parts[0] {
             "start" => Act::Start, "stop" => Act::Stop, "stopd" => Act::StopD, "close" => Act::Close, "drop" => Act::DropHandle,
             "pub0" => Act::Publish(0, num(1)? as usize, false), "pub1" => Act::Publish(1, num(1)? as usize, false),
             "pubcb0" => Act::Publish(0, num(1)? as usize, true), "pubcb1" => Act::Publish(1, num(1)? as usize, true),
+            "pubt1" => Act::PublishT(1, num(1)? as usize, num(2)?),
             "sleep" => Act::Sleep(num(1)?),
             "wait" => Act::Wait(parts.get(1).ok_or("wait: event")?.to_string(), num(2)? as usize),
             _ => return Err(format!("unknown action {}", t)),
@@ -75,7 +83,7 @@ fn parse_scenario(toks: &[&str]) -> Result<Scenario, String> {
     }
     let mut conns = Vec::new();
     for sec in &sections[1..] {
-        let mut c = ConnScript { conn: ConnMode::Ok, writes: vec![], ack: Ack::Ok, ack_delay_ms: 0, frag: usize::MAX, end: End::Stay };
+        let mut c = ConnScript { conn: ConnMode::Ok, writes: vec![], ack: Ack::Ok, ack_delay_ms: 0, frag: usize::MAX, end: End::Stay, no_pingresp: false, no_puback: false };
         for t in sec {
             let (k, v) = t.split_once('=').ok_or(format!("bad connection token {}", t))?;
             match k {
@@ -87,6 +95,7 @@ fn parse_scenario(toks: &[&str]) -> Result<Scenario, String> {
                 },
                 "ack" => c.ack = match v { "ok" => Ack::Ok, "fail" => Ack::Fail, "none" => Ack::None, _ => return Err("ack".to_string()) },
                 "ackdelay" => c.ack_delay_ms = v.parse::<u64>().map_err(|_| "ackdelay")?,
+                "quiet" => { c.no_pingresp = v == "ping" || v == "both"; c.no_puback = v == "pub" || v == "both"; }
                 "frag" => c.frag = v.parse::<usize>().map_err(|_| "frag")?.max(1),
                 "end" => {
                     let p: Vec<&str> = v.split(':').collect();
@@ -99,7 +108,7 @@ fn parse_scenario(toks: &[&str]) -> Result<Scenario, String> {
         }
         conns.push(c);
     }
-    Ok(Scenario { threaded, connect_timeout_ms, acts, conns })
+    Ok(Scenario { threaded, connect_timeout_ms, acts, conns, keep_alive, ping_timeout_ms })
 }
 
 // ---------------------------------------------------------------------------------------------
@@ -180,13 +189,13 @@ impl ConnState {
             match kind {
                 3 => {
                     let qos = (packet[0] >> 1) & 3;
-                    if qos > 0 && body.len() >= 2 {
+                    if qos > 0 && body.len() >= 2 && !self.script.no_puback {
                         let tl = ((body[0] as usize) << 8) | body[1] as usize;
                         if body.len() >= 2 + tl + 2 { self.inbound.extend([if qos == 1 { 0x40u8 } else { 0x50u8 }, 2, body[2 + tl], body[2 + tl + 1]]); }
                     }
                 }
                 8 => if body.len() >= 2 { self.inbound.extend([0x90u8, 4, body[0], body[1], 0, 0]); },
-                12 => self.inbound.extend([0xD0u8, 0]),
+                12 => if !self.script.no_pingresp { self.inbound.extend([0xD0u8, 0]) },
                 14 => self.eof = true,
                 _ => {}
             }
@@ -312,7 +321,8 @@ fn options(sc: &Scenario) -> (MqttClientOptions, ConnectOptions) {
     b.with_offline_queue_policy(OfflineQueuePolicy::PreserveAll);
     let mut cb = ConnectOptions::builder();
     cb.with_client_id("aa");
-    cb.with_keep_alive_interval_seconds(None);
+    cb.with_keep_alive_interval_seconds(sc.keep_alive);
+    if let Some(ms) = sc.ping_timeout_ms { b.with_ping_timeout(Duration::from_millis(ms)); }
     (b.build(), cb.build())
 }
 
@@ -377,6 +387,13 @@ fn run_tokio(sc: Scenario) -> String {
                             if let Err(e) = c.stop(Some(options)) { col.notes.lock().unwrap().push(format!("stop:{}", error_kind(&e))); }
                         }
                         Act::Close => if let Err(e) = c.close() { col.notes.lock().unwrap().push(format!("close:{}", error_kind(&e))); },
+                        Act::PublishT(qos, len, ms) => {
+                            let idx = { let mut r = col.results.lock().unwrap(); r.push(None); r.len() - 1 };
+                            let fut = c.publish(publish_packet(*qos, *len), Some(PublishOptions::builder().with_ack_timeout(Duration::from_millis(*ms)).build()));
+                            let results = col.results.clone();
+                            let t0 = Instant::now();
+                            tokio::spawn(async move { let r = fut.await; results.lock().unwrap()[idx] = Some(format!("{}@{}", result_text(&r), t0.elapsed().as_millis())); });
+                        }
                         Act::Publish(qos, len, _) => {
                             let idx = { let mut r = col.results.lock().unwrap(); r.push(None); r.len() - 1 };
                             let fut = c.publish(publish_packet(*qos, *len), None);
@@ -439,6 +456,18 @@ fn run_threaded(sc: Scenario) -> String {
                         if let Err(e) = c.stop(Some(options)) { col.notes.lock().unwrap().push(format!("stop:{}", error_kind(&e))); }
                     }
                     Act::Close => if let Err(e) = c.close() { col.notes.lock().unwrap().push(format!("close:{}", error_kind(&e))); },
+                    Act::PublishT(qos, len, ms) => {
+                        let idx = { let mut r = col.results.lock().unwrap(); r.push(None); r.len() - 1 };
+                        let results = col.results.clone();
+                        let t0 = Instant::now();
+                        let callback: SyncPublishResultCallback = Box::new(move |r| {
+                            results.lock().unwrap()[idx] = Some(format!("{}@{}", result_text(&r), t0.elapsed().as_millis()));
+                        });
+                        let options = PublishOptions::builder().with_ack_timeout(Duration::from_millis(*ms)).build();
+                        if let Err(e) = c.publish_with_callback(publish_packet(*qos, *len), Some(options), callback) {
+                            col.results.lock().unwrap()[idx] = Some(format!("err:{}", error_kind(&e)));
+                        }
+                    }
                     Act::Publish(qos, len, with_callback) => {
                         let idx = { let mut r = col.results.lock().unwrap(); r.push(None); r.len() - 1 };
                         if *with_callback {
